@@ -71,6 +71,26 @@ mutant("C04", "newton-distance-before-anderson", "src/darsia/measure/wasserstein
                 # Update increment
                 increment = solution_i - old_solution_i
 """, "distance evaluated for the un-accelerated Newton iterate: differs from the returned flux only with Anderson acceleration")
+mutant("C04", "newton-flux-increment-of-raw-update", "src/darsia/measure/wasserstein.py",
+       """                convergence_history["flux_increment"].append(
+                    np.linalg.norm(increment[self.flux_slice], 2)
+                )
+""", """                convergence_history["flux_increment"].append(
+                    np.linalg.norm(update_i[self.flux_slice], 2)
+                )
+""", "the flux-increment criterion is evaluated on the raw Newton update, not on the step actually taken: with Anderson acceleration the run is reported converged while the iterate still moves (history and status agree with each other; only the trajectory recorded at the linear-solve seam shows it)")
+mutant("C04", "bregman-distance-increment-after-variable-update", "src/darsia/measure/wasserstein.py",
+       """                # Update distance
+                new_distance = self.l1_dissipation(flux)
+
+                # Catch nan values
+""", """                # Update distance
+                new_distance = self.l1_dissipation(flux)
+                if iter > 0 and not update_solver:
+                    old_distance = 0.5 * (old_distance + new_distance)
+
+                # Catch nan values
+""", "Bregman measures the distance increment against a smoothed previous distance (half the true increment) in the iterations without regularisation update: runs are reported converged while the relative distance increment of the recorded trajectory is still above tol_distance (history and status agree with each other)")
 mutant("C04", "rhs-without-cell-volume", "src/darsia/measure/wasserstein.py",
        """        # Define right hand side
         rhs = np.concatenate(
